@@ -462,6 +462,35 @@ func (fr *Frame) builtin(st *State, name string, args []Value, cc *ssa.CallCommo
 		return one(r)
 	case "copy":
 		d, ok1 := args[0].(Slice)
+		if sv, ok := args[1].(Slice); ok && ok1 && !isByte(d.Elem) {
+			// copy between slices of non-byte elements: the first min(len dst, len src) elements of the
+			// destination's view are replaced, everything else in its backing array stays
+			if isNilConst(d) || isNilConst(sv) {
+				return one(Scalar{Int(0)})
+			}
+			da, okd := st.arrayCell(d.Back, d.Elem)
+			if !okd {
+				fail("copy: destination backing cell missing")
+			}
+			dseq, err := st.toSeq(da)
+			if err != nil {
+				fail("copy: %v", err)
+			}
+			sa, err := st.sliceArray(sv)
+			if err != nil {
+				fail("copy: %v", err)
+			}
+			sseq, err := st.toSeq(sa)
+			if err != nil {
+				fail("copy: %v", err)
+			}
+			n := Ite(Le(d.Len, sv.Len), d.Len, sv.Len)
+			end := Add(d.Off, n)
+			nseq := SeqConcat(SeqExtract(dseq, Int(0), d.Off), SeqExtract(sseq, Int(0), n), SeqExtract(dseq, end, Sub(SeqLen(dseq), end)))
+			st.heap[st.norm(d.Back).String()] = Cell{V: Array{Elem: d.Elem, Seq: nseq}}
+			fr.recordWrite(Ptr{H: d.Back})
+			return one(Scalar{n})
+		}
 		var src *Term
 		var sl *Term
 		switch s := args[1].(type) {
